@@ -162,6 +162,9 @@ def exec_for(e: Engine, s: ast.For, st: State) -> List[Outcome]:
             lab = getattr(e, "stmt_labels", {}).get(id(x))
             if lab:
                 inner_labels.add("after:" + lab)
+            al = getattr(e, "stmt_alias", {}).get(id(x))
+            if al:
+                inner_labels.add("after:" + al)
     for g in e.reg.ghost.get(e.fn.qname, []):
         if g.anchor.startswith(tag + ":") or g.anchor in inner_labels:
             for gn in ast.walk(ast.parse(g.code)):
